@@ -5,9 +5,23 @@
 //!
 //! Input line : <generator option words> \x1e <world or empty> \x1e <WIT text, newlines as \x1f>
 //! Output line: ok \x1e <json> \x1e <file> \x1d <content (\n as \x1f)> ...   |  err <msg>  |  panic <msg>
+use clap::Parser;
 use std::fmt::Write as _;
 use std::io::{self, BufRead, Write};
 use wit_parser::*;
+
+#[derive(Debug, Parser)]
+struct CW {
+    #[clap(flatten)]
+    opts: wit_bindgen_c::Opts,
+}
+
+fn parse_wit(text: &str) -> anyhow::Result<(Resolve, PackageId)> {
+    let mut resolve = Resolve::default();
+    resolve.all_features = true;
+    let pkg = resolve.push_str("case.wit", text)?;
+    Ok((resolve, pkg))
+}
 
 const SYNC: ManglingAndAbi = ManglingAndAbi::Legacy(LiftLowerAbi::Sync);
 
@@ -274,10 +288,11 @@ fn one(line: &str) -> String {
     let world = parts[1].to_string();
     let wit = parts[2].replace('\x1f', "\n");
     let r = std::panic::catch_unwind(move || -> anyhow::Result<String> {
-        let (mut resolve, pkg) = genlib::parse_wit(&wit)?;
+        let (mut resolve, pkg) = parse_wit(&wit)?;
         let wid = resolve.select_world(&[pkg], if world.is_empty() { None } else { Some(world.as_str()) })?;
         let desc = describe(&resolve, wid);
-        let mut generator = genlib::build("c", &args)?;
+        let argv = std::iter::once("x".to_string()).chain(args.iter().cloned());
+        let mut generator = CW::try_parse_from(argv)?.opts.build();
         let mut files = wit_bindgen_core::Files::default();
         generator.generate(&mut resolve, wid, &mut files)?;
         let mut out = format!("ok\x1e{desc}");
